@@ -5,6 +5,7 @@ import (
 	"os"
 	"os/exec"
 	"path/filepath"
+	"syscall"
 	"time"
 
 	"github.com/tonistiigi/fsutil/types"
@@ -17,6 +18,14 @@ func init() {
 
 func parseFault(f Op, xo *xferOpts, mfs *memFS) {
 	fp := &faultPlan{kind: f.str("kind"), at: f.num("at"), path: f.hex("path"), off: f.num("off"), teardown: 150 * time.Millisecond}
+	switch f.str("errno") {
+	case "ESTALE":
+		fp.errno = syscall.ESTALE
+	case "EIO":
+		fp.errno = syscall.EIO
+	case "EACCES":
+		fp.errno = syscall.EACCES
+	}
 	if ms := f.num("teardown_ms"); ms > 0 {
 		fp.teardown = time.Duration(ms) * time.Millisecond
 	}
@@ -36,6 +45,7 @@ func parseFault(f Op, xo *xferOpts, mfs *memFS) {
 	case "walk":
 		if mfs != nil {
 			mfs.walkFailAt = fp.at
+			mfs.walkFailErrno = fp.errno
 		}
 	case "read":
 		if mfs != nil {
